@@ -14,6 +14,7 @@ from __future__ import annotations
 
 import itertools
 import json
+import re
 import os
 import random
 import time
@@ -117,6 +118,8 @@ def no_compound_in_dead_while(mods, p):
     return not any(s[0] == "while" and tval(s[1]) is False and not s[3]
                    and any(x[0] in ("if", "while", "for") for x in M.walk(s[2])) for s in M.walk(p))
 
+
+EXTRA_TRANCHES = ("comp", "coll", "cls", "bool")   # optional harness/c02_<name>.py modules
 
 DOMAIN = {"fixes.remove_dead_ifs": no_false_if_with_elif, "fixes.swap_if_else": swap_domain,
           "fixes.delete_unreachable_code": no_compound_in_dead_while,
@@ -811,10 +814,19 @@ def check(run: common.Run):
         c02_expr = None
     if c02_expr is not None:
         expr = c02_expr.check(run, mods, wd, rnd)
+    # further tranches plug in the same way: harness/c02_<name>.py exposing check(run, mods, wd, rnd) -> dict and
+    # optionally TRUSTED_BASE / UNMODELLED / ASSUMPTIONS / replay(mods, data); finding ids F02<name>-n
+    extra = {}
+    for tname in EXTRA_TRANCHES:
+        try:
+            tmod = __import__(f"harness.c02_{tname}", fromlist=["check"])
+        except ImportError:
+            continue
+        extra[tname] = (tmod, tmod.check(run, mods, wd, rnd))
 
     # ---- known findings (ids F02x-* belong to the sibling tranche, which reports them itself)
     for f in kf:
-        if f.kind != "finding" or f.id.startswith("F02x"):
+        if f.kind != "finding" or f.id.startswith("F02x") or re.match(r"F02(comp|coll|cls|bool)-", f.id):
             continue
         n = oracle_known.get(f.id, 0) + sw["known"].get(f.id, 0)
         if n:
@@ -951,6 +963,14 @@ def check(run: common.Run):
         run.coverage["trusted_base"] += list(getattr(c02_expr, "TRUSTED_BASE", []))
         run.coverage["unmodelled"] += list(getattr(c02_expr, "UNMODELLED", []))
         run.assumptions += list(getattr(c02_expr, "ASSUMPTIONS", []))
+    for tname, (tmod, tres) in extra.items():
+        run.coverage[f"{tname}_tranche"] = {k: v for k, v in (tres or {}).items() if k not in ("modelled_rules",)}
+        run.coverage["trusted_base"] += list(getattr(tmod, "TRUSTED_BASE", []))
+        run.coverage["unmodelled"] += list(getattr(tmod, "UNMODELLED", []))
+        run.assumptions += list(getattr(tmod, "ASSUMPTIONS", []))
+        for k in ("evaluations", "distinct_nontrivial"):
+            if isinstance((tres or {}).get(k), int) and isinstance(run.coverage.get(k), int):
+                run.coverage[k] += tres[k]
     run.assumptions += [
         "theorems are about the Gallina rule models; that the Python functions compute these models is established by "
         "the correspondence on the enumerated/sampled domain only",
